@@ -169,6 +169,19 @@ def box_new(x):
     return ((mkref(x),),)
 
 
+def box_new_uninit():
+    # Box<MaybeUninit<[T; N]>>: the `vec![a, b, ..]` expansion writes the array through
+    # ((*ptr).1: ManuallyDrop<..>).0: MaybeDangling<..>).0 and then calls box_assume_init_into_vec_unsafe
+    return ((Ref([((), ((None,),))], 0, ()),),)
+
+
+def box_assume_init_into_vec(b):
+    arr = b[0][0].get()[1][0][0]
+    if arr is None:
+        raise Unsupported('vec! literal: array was never written')
+    return RVec(list(arr))
+
+
 def array_into_iter(a):
     return ListIt(list(a))
 
